@@ -410,6 +410,163 @@ impl Uiua {
     }
 }
 
+// ---- R8: what a primitive computes is opaque; only its stack traffic is under contract ----
+pub struct OpaqueFn {}
+#[verifier::external_body]
+pub fn opaque_fn() -> OpaqueFn {
+    unimplemented!()
+}
+#[verifier::external_body]
+pub fn opaque_value() -> Value {
+    unimplemented!()
+}
+#[verifier::external_body]
+pub fn opaque_result() -> UiuaResult<Value> {
+    unimplemented!()
+}
+#[verifier::external_body]
+pub fn opaque_unit() -> UiuaResult<()> {
+    unimplemented!()
+}
+#[verifier::external_body]
+pub fn opaque_unit_infallible() {
+    unimplemented!()
+}
+/// stack effect of a leaf: consumed exactly `a`, produced exactly `o`, nothing beneath touched;
+/// on failure nothing beneath the arguments touched
+pub open spec fn leaf_effect(s0: Seq<Value>, s1: Seq<Value>, ok: bool, a: int, o: int) -> bool {
+    if ok {
+        &&& s0.len() >= a
+        &&& s1.len() == s0.len() - a + o
+        &&& s1.subrange(0, s0.len() - a) =~= s0.subrange(0, s0.len() - a)
+    } else {
+        &&& s1.len() >= monus(s0.len() as int, a)
+        &&& s1.subrange(0, monus(s0.len() as int, a)) =~= s0.subrange(0, monus(s0.len() as int, a))
+    }
+}
+impl Uiua {
+    #[verifier::external_body]
+    pub fn require_height(&self, n: usize) -> (r: UiuaResult<usize>)
+        ensures
+            r.is_ok() <==> self.rt.stack@.len() >= n,
+            r.is_ok() ==> r.unwrap() == self.rt.stack@.len() - n,
+    {
+        unimplemented!()
+    }
+}
+impl Uiua {
+    /// ASSUMED (E3 obligation C02.e3.helper.monadic_ref on the real body): pops 1, calls the function, pushes one result
+    #[verifier::external_body]
+    pub fn monadic_ref(&mut self, f: OpaqueFn) -> (r: UiuaResult)
+        ensures
+            final(self).rt.under_stack@ == old(self).rt.under_stack@,
+            scoped_same(old(self).rt, final(self).rt),
+            leaf_effect(old(self).rt.stack@, final(self).rt.stack@, r.is_ok(), 1, 1),
+    {
+        unimplemented!()
+    }
+    /// ASSUMED (E3 obligation C02.e3.helper.monadic_env on the real body): pops 1, calls the function, pushes one result
+    #[verifier::external_body]
+    pub fn monadic_env(&mut self, f: OpaqueFn) -> (r: UiuaResult)
+        ensures
+            final(self).rt.under_stack@ == old(self).rt.under_stack@,
+            scoped_same(old(self).rt, final(self).rt),
+            leaf_effect(old(self).rt.stack@, final(self).rt.stack@, r.is_ok(), 1, 1),
+    {
+        unimplemented!()
+    }
+    /// ASSUMED (E3 obligation C02.e3.helper.monadic_ref_env on the real body): pops 1, calls the function, pushes one result
+    #[verifier::external_body]
+    pub fn monadic_ref_env(&mut self, f: OpaqueFn) -> (r: UiuaResult)
+        ensures
+            final(self).rt.under_stack@ == old(self).rt.under_stack@,
+            scoped_same(old(self).rt, final(self).rt),
+            leaf_effect(old(self).rt.stack@, final(self).rt.stack@, r.is_ok(), 1, 1),
+    {
+        unimplemented!()
+    }
+    /// ASSUMED (E3 obligation C02.e3.helper.monadic_mut on the real body): pops 1, calls the function, pushes one result
+    #[verifier::external_body]
+    pub fn monadic_mut(&mut self, f: OpaqueFn) -> (r: UiuaResult)
+        ensures
+            final(self).rt.under_stack@ == old(self).rt.under_stack@,
+            scoped_same(old(self).rt, final(self).rt),
+            leaf_effect(old(self).rt.stack@, final(self).rt.stack@, r.is_ok(), 1, 1),
+    {
+        unimplemented!()
+    }
+    /// ASSUMED (E3 obligation C02.e3.helper.monadic_mut_env on the real body): pops 1, calls the function, pushes one result
+    #[verifier::external_body]
+    pub fn monadic_mut_env(&mut self, f: OpaqueFn) -> (r: UiuaResult)
+        ensures
+            final(self).rt.under_stack@ == old(self).rt.under_stack@,
+            scoped_same(old(self).rt, final(self).rt),
+            leaf_effect(old(self).rt.stack@, final(self).rt.stack@, r.is_ok(), 1, 1),
+    {
+        unimplemented!()
+    }
+    /// ASSUMED (E3 obligation C02.e3.helper.dyadic_rr on the real body): pops 2, calls the function, pushes one result
+    #[verifier::external_body]
+    pub fn dyadic_rr(&mut self, f: OpaqueFn) -> (r: UiuaResult)
+        ensures
+            final(self).rt.under_stack@ == old(self).rt.under_stack@,
+            scoped_same(old(self).rt, final(self).rt),
+            leaf_effect(old(self).rt.stack@, final(self).rt.stack@, r.is_ok(), 2, 1),
+    {
+        unimplemented!()
+    }
+    /// ASSUMED (E3 obligation C02.e3.helper.dyadic_oo on the real body): pops 2, calls the function, pushes one result
+    #[verifier::external_body]
+    pub fn dyadic_oo(&mut self, f: OpaqueFn) -> (r: UiuaResult)
+        ensures
+            final(self).rt.under_stack@ == old(self).rt.under_stack@,
+            scoped_same(old(self).rt, final(self).rt),
+            leaf_effect(old(self).rt.stack@, final(self).rt.stack@, r.is_ok(), 2, 1),
+    {
+        unimplemented!()
+    }
+    /// ASSUMED (E3 obligation C02.e3.helper.dyadic_ro on the real body): pops 2, calls the function, pushes one result
+    #[verifier::external_body]
+    pub fn dyadic_ro(&mut self, f: OpaqueFn) -> (r: UiuaResult)
+        ensures
+            final(self).rt.under_stack@ == old(self).rt.under_stack@,
+            scoped_same(old(self).rt, final(self).rt),
+            leaf_effect(old(self).rt.stack@, final(self).rt.stack@, r.is_ok(), 2, 1),
+    {
+        unimplemented!()
+    }
+    /// ASSUMED (E3 obligation C02.e3.helper.dyadic_rr_env on the real body): pops 2, calls the function, pushes one result
+    #[verifier::external_body]
+    pub fn dyadic_rr_env(&mut self, f: OpaqueFn) -> (r: UiuaResult)
+        ensures
+            final(self).rt.under_stack@ == old(self).rt.under_stack@,
+            scoped_same(old(self).rt, final(self).rt),
+            leaf_effect(old(self).rt.stack@, final(self).rt.stack@, r.is_ok(), 2, 1),
+    {
+        unimplemented!()
+    }
+    /// ASSUMED (E3 obligation C02.e3.helper.dyadic_oo_env on the real body): pops 2, calls the function, pushes one result
+    #[verifier::external_body]
+    pub fn dyadic_oo_env(&mut self, f: OpaqueFn) -> (r: UiuaResult)
+        ensures
+            final(self).rt.under_stack@ == old(self).rt.under_stack@,
+            scoped_same(old(self).rt, final(self).rt),
+            leaf_effect(old(self).rt.stack@, final(self).rt.stack@, r.is_ok(), 2, 1),
+    {
+        unimplemented!()
+    }
+    /// ASSUMED (E3 obligation C02.e3.helper.dyadic_ro_env on the real body): pops 2, calls the function, pushes one result
+    #[verifier::external_body]
+    pub fn dyadic_ro_env(&mut self, f: OpaqueFn) -> (r: UiuaResult)
+        ensures
+            final(self).rt.under_stack@ == old(self).rt.under_stack@,
+            scoped_same(old(self).rt, final(self).rt),
+            leaf_effect(old(self).rt.stack@, final(self).rt.stack@, r.is_ok(), 2, 1),
+    {
+        unimplemented!()
+    }
+}
+
 // arity check of the operand list (R2: replaces the slice pattern `let [f] = get_ops(ops, env)?;`)
 #[verifier::external_body]
 pub fn get_ops_1(ops: Ops, env: &Uiua) -> (r: UiuaResult<SigNode>)
